@@ -711,8 +711,8 @@ impl<'a> VisitMut for BoolOrAssignPass<'a> {
 // R12: closure annotation (types, named return, requires/ensures). Pattern parameters are moved
 // into a `let PAT = __vx_aN;` at the start of the closure body (Rust's own parameter semantics).
 
-struct ClosureSpec { params: Option<Vec<String>>, ret: Option<String>, contract: String, adapter: Option<String>, bind: Option<String> }
-struct ClosurePass<'a> { rules: &'a mut Rules, specs: &'a BTreeMap<u64, ClosureSpec>, markers: &'a mut Markers, errors: &'a mut Vec<String>, used: Vec<u64>, pending: Vec<(Ident, TokenStream)> }
+struct ClosureSpec { params: Option<Vec<String>>, ret: Option<String>, contract: String, adapter: Option<String>, bind: Option<String>, adapter_recv: Option<String> }
+struct ClosurePass<'a> { rules: &'a mut Rules, specs: &'a BTreeMap<u64, ClosureSpec>, markers: &'a mut Markers, errors: &'a mut Vec<String>, used: Vec<u64>, pending: Vec<(Ident, TokenStream)>, ins: &'a mut Vec<InsertSpec>, ins_counts: BTreeMap<usize, u64>, loops: &'a BTreeMap<u64, String>, loops_used: Vec<u64> }
 impl<'a> VisitMut for ClosurePass<'a> {
     fn visit_block_mut(&mut self, b: &mut Block) {
         let mut out = vec![];
@@ -731,6 +731,7 @@ impl<'a> VisitMut for ClosurePass<'a> {
         // R7: `RECV.adapter(CLOSURE)` -> `vx_adapter(RECV, CLOSURE)` when the contract names a wrapper
         let mut adapter: Option<String> = None;
         let mut bind: Option<String> = None;
+        let mut recv_mode: Option<String> = None;
         if let Expr::MethodCall(mc) = e {
             if mc.args.len() == 1 {
                 if let Expr::Closure(c) = &mc.args[0] {
@@ -738,7 +739,7 @@ impl<'a> VisitMut for ClosurePass<'a> {
                         if let Some(sp) = self.specs.get(&o) {
                             if let Some(a) = &sp.adapter {
                                 let want = a.trim_start_matches("vx_");
-                                if mc.method == want { adapter = Some(a.clone()); bind = sp.bind.clone(); } else {
+                                if mc.method == want { adapter = Some(a.clone()); bind = sp.bind.clone(); recv_mode = sp.adapter_recv.clone(); } else {
                                     self.errors.push(format!("closure {}: adapter {} does not match method {}", o, a, mc.method));
                                 }
                             }
@@ -754,7 +755,11 @@ impl<'a> VisitMut for ClosurePass<'a> {
                 let recv = &mc.receiver;
                 let arg = &mc.args[0];
                 self.rules.hit("R7.adapter_call_to_wrapper");
-                let call = quote!(#f(#recv, #arg));
+                let call = match recv_mode.as_deref() {
+                    Some("mut") => quote!(#f(&mut #recv, #arg)),
+                    Some("ref") => quote!(#f(& #recv, #arg)),
+                    _ => quote!(#f(#recv, #arg)),
+                };
                 if let Some(b) = bind {
                     // R11: hoist the adapter call into a `let` right before the enclosing statement
                     let id = Ident::new(&b, Span::call_site());
@@ -808,6 +813,16 @@ impl<'a> VisitMut for ClosurePass<'a> {
             }
             let ret: TokenStream = match &spec.ret { Some(r) => { let t: TokenStream = r.parse().unwrap_or_default(); quote!(-> #t) } None => c.output.to_token_stream() };
             let m = if spec.contract.trim().is_empty() { None } else { Some(self.markers.mk(&spec.contract)) };
+            {
+                // statements / loops inside an annotated closure receive their inserts and invariants here
+                // (the closure becomes verbatim text afterwards)
+                let mut ip = InsertPass { specs: &mut *self.ins, markers: &mut *self.markers, counts: std::mem::take(&mut self.ins_counts) };
+                ip.visit_expr_mut(&mut c.body);
+                self.ins_counts = ip.counts;
+                let mut lf = LoopFinalPass { loops: self.loops, markers: &mut *self.markers, used: vec![], seen: vec![] };
+                lf.visit_expr_mut(&mut c.body);
+                self.loops_used.extend(lf.used);
+            }
             let body = &c.body;
             let body_block: TokenStream = match &**body {
                 Expr::Block(b) if b.label.is_none() && b.attrs.is_empty() && lets.is_empty() => b.to_token_stream(),
@@ -863,6 +878,50 @@ impl<'a> VisitMut for InsertPass<'a> {
         }
         b.stmts = out;
         visit_mut::visit_block_mut(self, b);
+    }
+    fn visit_arm_mut(&mut self, arm: &mut Arm) {
+        // arm_start / arm_end anchors: addressed by the arm's pattern text (prefix), nth occurrence
+        let pn = norm(&arm.pat.to_token_stream().to_string());
+        let mut todo: Vec<(bool, Stmt)> = vec![];
+        for i in 0..self.specs.len() {
+            let (at, m, nth) = { let sp = &self.specs[i]; (sp.at.clone(), norm(&sp.mtch), sp.nth) };
+            if (at == "arm_start" || at == "arm_end") && !m.is_empty() && pn.starts_with(&m) {
+                let c = self.counts.entry(i).or_insert(0);
+                let this = *c;
+                *c += 1;
+                if this == nth {
+                    let text = self.specs[i].text.clone();
+                    let st = self.mk_stmt(&text);
+                    self.specs[i].used = true;
+                    todo.push((at == "arm_start", st));
+                }
+            }
+        }
+        if !todo.is_empty() {
+            // make sure the arm body is a block
+            if !matches!(&*arm.body, Expr::Block(b) if b.label.is_none() && b.attrs.is_empty()) {
+                let old = (*arm.body).clone();
+                let blk: ExprBlock = parse_quote!({ __vx_placeholder });
+                let mut blk = blk;
+                blk.block.stmts[0] = Stmt::Expr(old, None);
+                *arm.body = Expr::Block(blk);
+                if arm.comma.is_none() { arm.comma = Some(Default::default()); }
+            }
+            if let Expr::Block(b) = &mut *arm.body {
+                for (start, st) in todo {
+                    if start { b.block.stmts.insert(0, st); } else {
+                        let has_tail = matches!(b.block.stmts.last(), Some(Stmt::Expr(_, None)));
+                        if has_tail {
+                            // keep the value of the arm: insert before a non-unit tail only when it is block-like-free
+                            let n = b.block.stmts.len() - 1;
+                            let block_like = matches!(&b.block.stmts[n], Stmt::Expr(Expr::If(_) | Expr::Match(_) | Expr::Block(_) | Expr::Loop(_) | Expr::While(_) | Expr::ForLoop(_), None));
+                            if block_like { b.block.stmts.push(st); } else { b.block.stmts.insert(n, st); }
+                        } else { b.block.stmts.push(st); }
+                    }
+                }
+            }
+        }
+        visit_mut::visit_arm_mut(self, arm);
     }
     fn visit_expr_mut(&mut self, e: &mut Expr) {
         // loop_start / loop_end anchors
@@ -1054,15 +1113,8 @@ fn process_fn(
                 contract: get_str(v, "contract").unwrap_or_default(),
                 adapter: get_str(v, "adapter"),
                 bind: get_str(v, "bind"),
+                adapter_recv: get_str(v, "adapter_recv"),
             });
-        }
-    }
-    {
-        let mut cp = ClosurePass { rules, specs: &cspecs, markers: &mut markers, errors, used: vec![], pending: vec![] };
-        cp.visit_block_mut(block);
-        let used = cp.used.clone();
-        for k in cspecs.keys() {
-            if !used.contains(k) { errors.push(format!("{}: lost anchor: closure {} not found ({} closures in source)", path, k, tag.closures)); }
         }
     }
     // inserts
@@ -1079,8 +1131,24 @@ fn process_fn(
             });
         }
     }
+    let mut lspecs: BTreeMap<u64, String> = BTreeMap::new();
+    if let Some(Value::Object(m)) = spec.get("loops") {
+        for (k, v) in m { if let (Ok(o), Some(s)) = (k.parse::<u64>(), v.as_str()) { lspecs.insert(o, s.to_string()); } }
+    }
+    let mut closure_loops_used: Vec<u64> = vec![];
+    let mut closure_ins_counts: BTreeMap<usize, u64> = BTreeMap::new();
     {
-        let mut ip = InsertPass { specs: &mut ins, markers: &mut markers, counts: BTreeMap::new() };
+        let mut cp = ClosurePass { rules, specs: &cspecs, markers: &mut markers, errors, used: vec![], pending: vec![], ins: &mut ins, ins_counts: BTreeMap::new(), loops: &lspecs, loops_used: vec![] };
+        cp.visit_block_mut(block);
+        let used = cp.used.clone();
+        closure_loops_used = cp.loops_used.clone();
+        closure_ins_counts = std::mem::take(&mut cp.ins_counts);
+        for k in cspecs.keys() {
+            if !used.contains(k) { errors.push(format!("{}: lost anchor: closure {} not found ({} closures in source)", path, k, tag.closures)); }
+        }
+    }
+    {
+        let mut ip = InsertPass { specs: &mut ins, markers: &mut markers, counts: closure_ins_counts };
         ip.visit_block_mut(block);
     }
     for sp in ins.iter_mut() {
@@ -1100,15 +1168,11 @@ fn process_fn(
         if !sp.used { errors.push(format!("{}: lost anchor: insert at={} match={:?} nth={} loop={:?}", path, sp.at, sp.mtch, sp.nth, sp.loop_ord)); }
     }
     // loops
-    let mut lspecs: BTreeMap<u64, String> = BTreeMap::new();
-    if let Some(Value::Object(m)) = spec.get("loops") {
-        for (k, v) in m { if let (Ok(o), Some(s)) = (k.parse::<u64>(), v.as_str()) { lspecs.insert(o, s.to_string()); } }
-    }
     {
         let mut lf = LoopFinalPass { loops: &lspecs, markers: &mut markers, used: vec![], seen: vec![] };
         lf.visit_block_mut(block);
         for k in lspecs.keys() {
-            if !lf.used.contains(k) { errors.push(format!("{}: lost anchor: loop {} not found ({} loops in source)", path, k, tag.loops)); }
+            if !lf.used.contains(k) && !closure_loops_used.contains(k) { errors.push(format!("{}: lost anchor: loop {} not found ({} loops in source)", path, k, tag.loops)); }
         }
     }
     if let Some(exp) = spec.get("expect_loops").and_then(|x| x.as_u64()) {
